@@ -77,20 +77,38 @@ func keyValue(r *gen.Rng) (*big.Int, string) {
 }
 
 // mustPriv builds a library private key for d.
+//
+// Every key object the monitors use is built the way a careful caller builds one: from
+// a scratch buffer that is wiped (here: overwritten with a pattern) as soon as the
+// constructor has returned.  A key that kept the caller's slice - for its encoding, for
+// the nonce derivation, for anything - is a different key from then on, and whichever
+// monitor uses the object sees it.
 func mustPriv(d *big.Int) *secec.PrivateKey {
-	k, err := secec.NewPrivateKey(b32(d))
+	buf := make([]byte, 32, 48)
+	copy(buf, b32(d))
+	k, err := secec.NewPrivateKey(buf)
 	if err != nil {
 		panic(fmt.Sprintf("harness: NewPrivateKey(%x): %v", d, err))
 	}
+	scribble(buf[:cap(buf)])
 	return k
+}
+
+// scribble overwrites a buffer the harness handed to a constructor.
+func scribble(b []byte) {
+	for i := range b {
+		b[i] = 0xA5 ^ byte(i*29)
+	}
 }
 
 // mustPub builds a library public key for a non-identity curve point.
 func mustPub(q *oracle.Pt) *secec.PublicKey {
-	k, err := secec.NewPublicKey(oracle.EncodeUncompressed(q))
+	buf := oracle.EncodeUncompressed(q)
+	k, err := secec.NewPublicKey(buf)
 	if err != nil {
 		panic(fmt.Sprintf("harness: NewPublicKey(%v): %v", q, err))
 	}
+	scribble(buf)
 	return k
 }
 
